@@ -348,3 +348,45 @@ Proof.
   - apply chk_C19_sock3.
   - apply chk_C19_sock3.
 Qed.
+
+(* ------------------------------------------------------------------ C18 for a listener that subscribes late *)
+
+Lemma run_ops_from_app e p a : forall k s b,
+  run_ops_from e p k s (a ++ b) =
+  (fst (run_ops_from e p (k + Z.of_nat (List.length a)) (fst (run_ops_from e p k s a)) b),
+   snd (run_ops_from e p k s a) ++ snd (run_ops_from e p (k + Z.of_nat (List.length a)) (fst (run_ops_from e p k s a)) b)).
+Proof.
+  induction a as [|o a IH]; intros k s b.
+  - cbn [app List.length run_ops_from fst snd Z.of_nat]. rewrite Z.add_0_r.
+    destruct (run_ops_from e p k s b); reflexivity.
+  - rewrite <- app_comm_cons. cbn [run_ops_from]. rewrite !andthen_spec. cbn [fst snd].
+    rewrite IH. cbn [fst snd].
+    replace (k + 1 + Z.of_nat (List.length a)) with (k + Z.of_nat (List.length (o :: a)))
+      by (cbn [List.length]; rewrite Nat2Z.inj_succ; lia).
+    rewrite <- !app_assoc. reflexivity.
+Qed.
+
+Lemma acks_sum_app a b : acks_sum (a ++ b) = acks_sum a + acks_sum b.
+Proof.
+  induction a as [|o a IH]; [reflexivity|].
+  rewrite <- app_comm_cons, !acks_sum_cons, IH. lia.
+Qed.
+
+(* A listener that subscribes after the schedule ops1 (part of the response - possibly part of the header block only -
+   has been acknowledged by then) hears, over ANY later schedule ops2 of acknowledgements and body writes, exactly the
+   body bytes acknowledged from then on: never a header byte that was still outstanding, never fewer. *)
+Theorem late_listener_counts_body_only e p s ops1 ops2 k :
+  Forall ack_op ops1 -> Forall ack_op ops2 -> constructed s = true ->
+  let s0 := fst (write_headers s) in
+  let H := blen (response_head (code s) (reason s) (rh s)) in
+  let r1 := run_ops_from e p k s0 ops1 in
+  let r2 := run_ops_from e p (k + Z.of_nat (List.length ops1)) (fst r1) ops2 in
+  written_sum (snd r2) = Z.max 0 (acks_sum ops1 + acks_sum ops2 - H) - Z.max 0 (acks_sum ops1 - H).
+Proof.
+  intros H1 H2 Hc s0 H r1 r2.
+  pose proof (progress_counts_body_only e p s (ops1 ++ ops2) k (proj2 (Forall_app ack_op ops1 ops2) (conj H1 H2)) Hc) as Hall.
+  pose proof (progress_counts_body_only e p s ops1 k H1 Hc) as Hfirst.
+  cbn zeta in Hall, Hfirst. fold s0 in Hall, Hfirst. fold H in Hall, Hfirst.
+  rewrite run_ops_from_app in Hall. cbn [snd] in Hall. fold r1 in Hall, Hfirst. fold r2 in Hall.
+  rewrite written_sum_app, acks_sum_app in Hall. lia.
+Qed.
